@@ -728,7 +728,8 @@ def main(tier):
         "(AST scan, fail closed, on every run); Window.char, key-buffer data and scrollbar arrow symbols are application/"
         "key data, not displayed content",
         "horizontal scroll, alignment, cursor/menu bookkeeping of _copy_body and set_title are outside the model; the dumb-terminal "
-        "prompt (PromptSession._dumb_prompt) is outside the model and exercised by the oracle only (known finding C10-F1)",
+        "prompt (PromptSession._dumb_prompt -> _dumb_terminal_text -> Vt100_Output.write) is outside the model: its write sites are "
+        "checked by the AST scan and its output by the oracle",
         "'control character' = C0 (0x00-0x1F), DEL, C1 (0x80-0x9F)"]
     return chk.finish()
 
